@@ -260,9 +260,9 @@ func (ig *inputGen) subtree() []byte {
 
 // ---- TLS presentation-language helpers ----------------------------------------
 
-func u16(b []byte, v int) []byte { return binary.BigEndian.AppendUint16(b, uint16(v)) }
-func u24(b []byte, v int) []byte { return append(b, byte(v>>16), byte(v>>8), byte(v)) }
-func vec8(b, body []byte) []byte { return append(append(b, byte(len(body))), body...) }
+func u16(b []byte, v int) []byte  { return binary.BigEndian.AppendUint16(b, uint16(v)) }
+func u24(b []byte, v int) []byte  { return append(b, byte(v>>16), byte(v>>8), byte(v)) }
+func vec8(b, body []byte) []byte  { return append(append(b, byte(len(body))), body...) }
 func vec16(b, body []byte) []byte { return append(u16(b, len(body)), body...) }
 func vec24(b, body []byte) []byte { return append(u24(b, len(body)), body...) }
 
